@@ -335,7 +335,14 @@ fn eval_loc_expr(
                     }
                 }
             }
-            //collected.dedup();
+            // The result of a step is a node-set: without this, a node reached from several
+            // context nodes is carried once per path and `a/../a/..` doubles the list at every
+            // step. Nodes that have no order key (0) are not identified by it.
+            let mut set = HashSet::new();
+            collected.retain(|v| {
+                let order = v.order();
+                order == 0 || set.insert(order)
+            });
             nodes = collected;
         }
     }
